@@ -96,7 +96,7 @@ class C17(Check):
     def _random(self, rng, tier):
         nsingle = 60 if tier == 'quick' else 300
         dbl = 0 if tier == 'quick' else 120
-        nrand = 5000 if tier == 'quick' else 50000
+        nrand = 5000 if tier == 'quick' else 10 ** 7
         for k in range(nsingle):
             enc = ENCODINGS[k % 4]
             strs = self._rand_strs(rng, enc)
